@@ -187,8 +187,8 @@ def _k1(ctx: Context, ss, ser, des) -> None:
                 "encoding or decoding a message with this field raises",
                 f"{c.module.relpath}:{st.lineno}",
             )
-    ck.require_min("C16.K1", "tlv_entry fields over all structs", n, 100)
-    ck.require_min("C16.K1", "TLVStruct subclasses", len(ss), 20)
+    ck.require_min("C16.K1", "tlv_entry fields over all structs", n, 50)
+    ck.require_min("C16.K1", "TLVStruct subclasses", len(ss), 10)
     # every field is annotated + tlv_entry (a dataclass field without tlv metadata would make encode() raise KeyError)
     for c in ss:
         for st in c.node.body:
@@ -228,7 +228,7 @@ def _k2(ctx: Context, ss) -> None:
                 "as ONE little-endian integer (131073) and an id whose low byte is 0 (8192 = `00 20`) is read as a separator; encoding raises AttributeError",
                 f"{c.module.relpath}:{st.lineno}",
             )
-    ck.require_min("C16.K2", "Sequence[...] fields", n, 8)
+    ck.require_min("C16.K2", "Sequence[...] fields", n, 4)
 
 
 def _k3(ctx: Context, ss) -> None:
@@ -319,7 +319,7 @@ def _k4(ctx: Context, ss, ser, des) -> None:
         zero = [name for name, ann, t, st in all_fields(ctx, c) if t == 0]
         ck.check("C16.K4", not zero, f"{c.name} (sequence element) has no field of TLV type 0", f"{r}:separator-typed-field",
                  f"{c.name} is used as a sequence element but its field {zero} has TLV type 0, which the splitter takes for the item separator when empty", f"{c.module.relpath}:{c.node.lineno}")
-    ck.require_min("C16.K4", "struct types used as sequence elements", len(elems), 6)
+    ck.require_min("C16.K4", "struct types used as sequence elements", len(elems), 3)
     # scalar codecs
     widths = {"u8": ("B", 1, "little"), "u16": ("H", 2, "little"), "u32": ("I", 4, "little"), "u64": ("Q", 8, "little"), "bu16": ("H", 2, "big")}
     for tname, (code, width, order_) in widths.items():
